@@ -236,6 +236,8 @@ def fold( e, env=None ):
             base = NoFold
         if isinstance( base, dict ) and e.attr in base:
             return base[e.attr]
+        if isinstance( base, dict ) and not hasattr( base, e.attr ):
+            raise Raises( 'AttributeError: %s' % e.attr )		# a field the folded mapping does not have: what dotdict raises
         if isinstance( base, _Record ) and hasattr( base, e.attr ):
             return getattr( base, e.attr )
     raise NoFold( ast.dump( e )[:80] )
@@ -337,7 +339,7 @@ def _store( tg, val, env ):
         except TypeError:
             raise NoFold( 'unpack of %r' % type( val ).__name__ )
         if len( vals ) != len( tg.elts ):
-            raise NoFold( 'unpack of %d values into %d targets' % ( len( vals ), len( tg.elts )))
+            raise Raises( 'ValueError: unpack of %d values into %d targets' % ( len( vals ), len( tg.elts )))
         for t, v in zip( tg.elts, vals ):
             _store( t, v, env )
     else:
@@ -414,7 +416,25 @@ def run_block( stmts, env, ignore_calls=(), stop_at_yield=True ):
             continue
         if isinstance( st, ast.Try ):
             # the straight path only: body, else, finally ( a body that cannot be folded is not a decision fragment; handlers are not modelled )
-            for part in ( st.body, st.orelse, st.finalbody ):
+            try:
+                out = run_block( st.body, env, ignore_calls, stop_at_yield )
+            except Raises as exc:
+                # an operation of the body raised on the cell's concrete values: the first handler whose type names that exception ( or a
+                # catch-all ) takes over, as it would
+                name = str( exc ).split( ':' )[0]
+                hs = [ h for h in st.handlers if h.type is None or name in ast.unparse( h.type ) or ast.unparse( h.type ) in ( 'Exception', 'BaseException' ) ]
+                if not hs:
+                    raise
+                out = run_block( hs[0].body, env, ignore_calls, stop_at_yield )
+                if out.kind != 'fall':
+                    return out
+                out = run_block( st.finalbody, env, ignore_calls, stop_at_yield )
+                if out.kind != 'fall':
+                    return out
+                continue
+            if out.kind != 'fall':
+                return out
+            for part in ( st.orelse, st.finalbody ):
                 out = run_block( part, env, ignore_calls, stop_at_yield )
                 if out.kind != 'fall':
                     return out
